@@ -23,15 +23,40 @@ Qed.
 Lemma satb_of v : satisfies lit re_search tm v -> satb v = true.
 Proof. unfold PathsEnum.satb, satisfies. intros ->. reflexivity. Qed.
 
+(* ---- the lone-scalar document ---- *)
+Lemma is_none_leaf_null d : is_none_leaf d = null_doc d.
+Proof. reflexivity. Qed.
+
+Lemma reach_leaf i v l m : reach (NLeaf i v) l m -> l = [] /\ m = NLeaf i v.
+Proof. intros H. inversion H; subst; auto. match goal with H : child_at (NLeaf _ _) _ _ |- _ => inversion H end. Qed.
+
+Lemma search_doc_leaf i v res :
+  search_doc lit re_search mt tm sp o (NLeaf i v) = Ok res ->
+  res = if negb (null_doc (NLeaf i v)) && o_values o && satb (NLeaf i v)
+        then [mkhit (root_slash sp "") [] HValue] else [].
+Proof.
+  unfold search_doc. cbn [search_for_paths]. unfold scalar_root. change (is_none_leaf (NLeaf i v)) with (null_doc (NLeaf i v)). unfold PathsEnum.satb.
+  destruct (negb (null_doc (NLeaf i v)) && o_values o); cbn [andb].
+  - destruct (term_matches lit re_search tm (node_hay (NLeaf i v))) as [[|]| |]; cbn [bind fst]; intros E; inversion E; reflexivity.
+  - cbn [bind fst]. intros E; inversion E; reflexivity.
+Qed.
+
+Lemma container_not_root d l s : is_container d = true -> ~ root_place d l s.
+Proof. intros Hc [_ [_ [Hl _]]]. destruct d; simpl in *; discriminate. Qed.
+
 Lemma search_doc_enum d res :
   o_anchors o = false -> transparent mt o d ->
   search_doc lit re_search mt tm sp o d = Ok res ->
-  map h_lk res = enum lit re_search tm o d [].
+  map h_lk res = enum_doc lit re_search tm o d.
 Proof.
-  intros Ha Ht E. unfold search_doc in E.
-  destruct (search_for_paths lit re_search mt (scan_for_anchors d []) tm sp o d "" [] []) as [r| |] eqn:Es;
-    simpl in E; try discriminate.
-  inversion E; subst. eapply sfp_enum; eauto.
+  intros Ha Ht E. unfold enum_doc. destruct (is_container d) eqn:Ec.
+  - unfold search_doc in E.
+    destruct (search_for_paths lit re_search mt (scan_for_anchors d []) tm sp o d "" [] []) as [r| |] eqn:Es;
+      simpl in E; try discriminate.
+    inversion E; subst. eapply sfp_enum; eauto.
+  - destruct (not_container_leaf' _ Ec) as [i [v ->]]. rewrite (search_doc_leaf _ _ _ E).
+    change (is_none_leaf (NLeaf i v)) with (null_doc (NLeaf i v)).
+    destruct (negb (null_doc (NLeaf i v)) && o_values o && satb (NLeaf i v)); reflexivity.
 Qed.
 
 Lemma good_justified d h :
@@ -41,9 +66,21 @@ Proof.
   - destruct L as [Hk [i [kvs [kn [v [-> [Hin [-> Hs]]]]]]]]. split; auto.
     exists kn. split; [|apply satb_inv; auto]. exists l0, i, kvs, v. auto.
   - destruct L as [Hv [i [v [Hc Hs]]]]. split; auto.
-    exists (NLeaf i v). split; [|apply satb_inv; auto]. exists l0, tgt, r. auto.
+    exists (NLeaf i v). split; [|apply satb_inv; auto]. left. exists l0, tgt, r. auto.
   - destruct L as [i [els [m [-> [Hin [-> Hs]]]]]].
     exists m. split; [|apply satb_inv; auto]. exists l0, i, els. auto.
+Qed.
+
+(* what a lone-scalar document reports *)
+Lemma leaf_hit_justified i v res h :
+  search_doc lit re_search mt tm sp o (NLeaf i v) = Ok res -> In h res ->
+  h = mkhit (root_slash sp "") [] HValue /\ o_values o = true /\ null_doc (NLeaf i v) = false /\
+  satb (NLeaf i v) = true.
+Proof.
+  intros E Hin. rewrite (search_doc_leaf _ _ _ E) in Hin.
+  destruct (null_doc (NLeaf i v)); cbn [negb andb] in Hin; [contradiction|].
+  destruct (o_values o); cbn [andb] in Hin; [|contradiction].
+  destruct (satb (NLeaf i v)); [|contradiction]. destruct Hin as [<-|[]]. auto.
 Qed.
 
 Theorem sound d res :
@@ -51,24 +88,43 @@ Theorem sound d res :
   search_doc lit re_search mt tm sp o d = Ok res ->
   forall h, In h res -> justified lit re_search tm o d h.
 Proof.
-  intros Ha Hx Ht E h Hin. pose proof (search_doc_enum _ _ Ha Ht E) as Eq.
-  assert (Hi : In (h_lk h) (enum lit re_search tm o d [])) by (rewrite <- Eq; apply in_map; auto).
-  destruct (enum_sound lit re_search tm o Hx d [] _ _ Hi) as [l' [El G]]. simpl in El. subst l'.
-  apply good_justified; auto.
+  intros Ha Hx Ht E h Hin. destruct (is_container d) eqn:Ec.
+  - pose proof (search_doc_enum _ _ Ha Ht E) as Eq. unfold enum_doc in Eq. rewrite Ec in Eq.
+    assert (Hi : In (h_lk h) (enum lit re_search tm o d [])) by (rewrite <- Eq; apply in_map; auto).
+    destruct (enum_sound lit re_search tm o Hx d [] _ _ Hi) as [l' [El G]]. simpl in El. subst l'.
+    apply good_justified; auto.
+  - destruct (not_container_leaf' _ Ec) as [i [v ->]].
+    destruct (leaf_hit_justified _ _ _ _ E Hin) as [-> [Hv [Hn Hs]]]. unfold justified. cbn [h_kind h_loc].
+    split; auto. exists (NLeaf i v). split; [|apply satb_inv; auto]. right. repeat split; auto.
 Qed.
 
 Lemma wanted_good d l :
+  is_container d = true ->
   wanted lit re_search tm o d l -> exists k, good lit re_search tm o d l k.
 Proof.
-  intros [[Hv [s [[l0 [p [r [-> [R [Hc Hl]]]]]] Hs]]]|[[Hk [kn [[l0 [i [kvs [v [-> [R Hin]]]]]] Hs]]]
+  intros Hc [[Hv [s [[[l0 [p [r [-> [R [Hch Hl]]]]]]|Hr] Hs]]]|[[Hk [kn [[l0 [i [kvs [v [-> [R Hin]]]]]] Hs]]]
                                                   |[m [[l0 [i [els [-> [R Hin]]]]] Hs]]]].
   - destruct s as [i v| | |]; try discriminate.
     exists HValue, l0, p, r. split; [reflexivity|]. split; auto. simpl. split; auto.
     exists i, v. split; auto. apply satb_of; auto.
+  - exfalso. eapply container_not_root; eauto.
   - exists HKey, l0, (NMap i kvs), (key_ref kn). split; [reflexivity|]. split; auto. simpl. split; auto.
     exists i, kvs, kn, v. repeat split; auto. apply satb_of; auto.
   - exists HMember, l0, (NSet i els), (member_ref m). split; [reflexivity|]. split; auto. simpl.
     exists i, els, m. repeat split; auto. apply satb_of; auto.
+Qed.
+
+(* on a lone-scalar document only the root can be wanted *)
+Lemma wanted_leaf i v l :
+  wanted lit re_search tm o (NLeaf i v) l ->
+  l = [] /\ o_values o = true /\ null_doc (NLeaf i v) = false /\ satb (NLeaf i v) = true.
+Proof.
+  intros [[Hv [s [[[l0 [p [r [-> [R [Hch Hl]]]]]]|[-> [-> [_ Hn]]]] Hs]]]|[[Hk [kn [[l0 [i0 [kvs [v0 [-> [R Hin]]]]]] Hs]]]
+                                                  |[m [[l0 [i0 [els [-> [R Hin]]]]] Hs]]]].
+  - destruct (reach_leaf _ _ _ _ R) as [_ ->]. inversion Hch.
+  - repeat split; auto. apply satb_of; auto.
+  - destruct (reach_leaf _ _ _ _ R) as [_ Hm]. discriminate.
+  - destruct (reach_leaf _ _ _ _ R) as [_ Hm]. discriminate.
 Qed.
 
 Theorem complete_cover d res :
@@ -77,13 +133,18 @@ Theorem complete_cover d res :
   forall l, wanted lit re_search tm o d l ->
   exists h, In h res /\ prefix (h_loc h) l /\ (h_loc h = l \/ (h_kind h = HKey /\ o_keys o = true)).
 Proof.
-  intros Ha Hx Ht E l W. pose proof (search_doc_enum _ _ Ha Ht E) as Eq.
-  destruct (wanted_good _ _ W) as [k [l0 [tgt [r [-> [R L]]]]]].
-  destruct (enum_complete lit re_search tm o Hx d l0 tgt R r k [] L) as [l1 [k1 [p [Hin [El [Hp Hd]]]]]].
-  simpl in El. subst l1. rewrite <- Eq in Hin. apply in_map_iff in Hin.
-  destruct Hin as [h [Eh Hin]]. unfold h_lk in Eh. inversion Eh; subst.
-  exists h. split; auto. split; auto.
-  destruct Hd as [[Hd _]|Hd]; auto.
+  intros Ha Hx Ht E l W. destruct (is_container d) eqn:Ec.
+  - pose proof (search_doc_enum _ _ Ha Ht E) as Eq. unfold enum_doc in Eq. rewrite Ec in Eq.
+    destruct (wanted_good _ _ Ec W) as [k [l0 [tgt [r [-> [R L]]]]]].
+    destruct (enum_complete lit re_search tm o Hx d l0 tgt R r k [] L) as [l1 [k1 [p [Hin [El [Hp Hd]]]]]].
+    simpl in El. subst l1. rewrite <- Eq in Hin. apply in_map_iff in Hin.
+    destruct Hin as [h [Eh Hin]]. unfold h_lk in Eh. inversion Eh; subst.
+    exists h. split; auto. split; auto.
+    destruct Hd as [[Hd _]|Hd]; auto.
+  - destruct (not_container_leaf' _ Ec) as [i [v ->]].
+    destruct (wanted_leaf _ _ _ W) as [-> [Hv [Hn Hs]]].
+    exists (mkhit (root_slash sp "") [] HValue). rewrite (search_doc_leaf _ _ _ E), Hn, Hv, Hs. cbn.
+    split; [left; reflexivity|]. split; [exists []; reflexivity|]. left; reflexivity.
 Qed.
 
 Theorem complete_values d res :
@@ -100,9 +161,12 @@ Theorem once d res :
   search_doc lit re_search mt tm sp o d = Ok res ->
   NoDup (map h_loc res).
 Proof.
-  intros Ha Hx Ht Hn E. pose proof (search_doc_enum _ _ Ha Ht E) as Eq.
-  pose proof (enum_nodup lit re_search tm o Hx d Hn []) as N. unfold locs in N. rewrite <- Eq in N.
-  rewrite map_map in N. exact N.
+  intros Ha Hx Ht Hn E. destruct (is_container d) eqn:Ec.
+  - pose proof (search_doc_enum _ _ Ha Ht E) as Eq. unfold enum_doc in Eq. rewrite Ec in Eq.
+    pose proof (enum_nodup lit re_search tm o Hx d Hn []) as N. unfold locs in N. rewrite <- Eq in N.
+    rewrite map_map in N. exact N.
+  - destruct (not_container_leaf' _ Ec) as [i [v ->]]. rewrite (search_doc_leaf _ _ _ E).
+    destruct (_ && _); cbn; repeat constructor; auto.
 Qed.
 
 (* the step-level facts behind the exclusion modes *)
